@@ -42,8 +42,14 @@ def main(ids):
     if ids and ids[0].startswith("--base="):
         base = int(ids[0].split("=", 1)[1])
         ids = ids[1:]
+    skip = set()
+    if ids and ids[0].startswith("--skip="):
+        skip = set(ids[0].split("=", 1)[1].split(","))
+        ids = ids[1:]
     for pid in ids:
-        for n, suf in ((str(base + 1), ""), (str(base + 2), "2")):
+        for n, suf in ((str(base + 1), ""), (str(base + 2), "2"), (str(base + 3), "3")):
+            if pid + suf in skip:
+                continue
             src = "/tmp/seed/%s" % pid
             patch = "%s/patch%s.diff" % (src, suf)
             ver = "%s/myverify%s.txt" % (src, suf)
